@@ -42,6 +42,7 @@ func (a *MajorityStrategy) Compute(snapshots <-chan *asset.Snapshot) <-chan Acti
 
 	sources := ActionSources(a.Strategies, snapshots)
 
+	helper.VerifStage("Vote", len(sources), []any{sources}, []any{result})
 	go func() {
 		defer close(result)
 
